@@ -10,14 +10,25 @@ fn out(found: bool, input: serde_json::Value, observed: String, expected: String
     f.write_all(v.to_string().as_bytes()).unwrap();
 }
 
-fn bad64(x: u64) -> Option<(String, String)> {
+// the replay is built with arithmetic overflow checks on (as `cargo test` does): a step that overflows panics, which is a failure of
+// "every word has an image"; the panic is caught and reported as the observation
+fn guarded<T: Copy + std::fmt::Display + std::panic::UnwindSafe + 'static>(x: T, f: fn(T) -> Option<(String, String)>) -> Option<(String, String)> {
+    let h = std::panic::take_hook();
+    std::panic::set_hook(Box::new(|_| {}));
+    let r = std::panic::catch_unwind(move || f(x));
+    std::panic::set_hook(h);
+    match r { Ok(v) => v, Err(_) => Some((format!("the round trip of {x} panicked (arithmetic overflow in a build with overflow checks)"), format!("{x}"))) }
+}
+fn bad64(x: u64) -> Option<(String, String)> { guarded(x, raw64) }
+fn bad32(x: u32) -> Option<(String, String)> { guarded(x, raw32) }
+fn raw64(x: u64) -> Option<(String, String)> {
     let a = int64_hash_inverse(int64_hash(x));
     if a != x { return Some((format!("int64_hash_inverse(int64_hash({x})) = {a}"), format!("{x}"))); }
     let b = int64_hash(int64_hash_inverse(x));
     if b != x { return Some((format!("int64_hash(int64_hash_inverse({x})) = {b}"), format!("{x}"))); }
     None
 }
-fn bad32(x: u32) -> Option<(String, String)> {
+fn raw32(x: u32) -> Option<(String, String)> {
     let a = int32_hash_inverse(int32_hash(x));
     if a != x { return Some((format!("int32_hash_inverse(int32_hash({x})) = {a}"), format!("{x}"))); }
     let b = int32_hash(int32_hash_inverse(x));
@@ -57,10 +68,19 @@ fn verif_replay_c19() {
     // the 32-bit pair is always swept exhaustively (a few seconds in release): a witness search only runs when an
     // obligation failed or could not be decided, and a one-in-2^32 failing word must not be missed then
     {
+        let h = std::panic::take_hook();
+        std::panic::set_hook(Box::new(|_| {}));
+        let mut hit: Option<(u32, String, String)> = None;
         for x in 0..=u32::MAX {
             cases += 1;
-            if let Some((o, e)) = bad32(x) { out(true, serde_json::json!({"bits": 32, "x": x}), o, e, cases); return; }
+            match std::panic::catch_unwind(move || raw32(x)) {
+                Ok(None) => {}
+                Ok(Some((o, e))) => { hit = Some((x, o, e)); break; }
+                Err(_) => { hit = Some((x, format!("the round trip of {x} panicked (arithmetic overflow in a build with overflow checks)"), format!("{x}"))); break; }
+            }
         }
+        std::panic::set_hook(h);
+        if let Some((x, o, e)) = hit { out(true, serde_json::json!({"bits": 32, "x": x}), o, e, cases); return; }
     }
     out(false, serde_json::Value::Null, "no failing word".into(), "".into(), cases);
 }
